@@ -53,4 +53,13 @@ def main():
 
 
 if __name__ == '__main__':
-    sys.exit(main())
+    try:
+        rc = main()
+    except SystemExit:
+        raise
+    except BaseException as e:      # a crash of the machinery is a harness error (3), never a verdict (0/1)
+        import traceback
+        traceback.print_exc()
+        print('HARNESS-ERROR: %s: %s' % (type(e).__name__, e))
+        rc = 3
+    sys.exit(rc)
